@@ -103,6 +103,8 @@ def lengths_of(raw, plain=None):
 
 
 AGENT_MAX = [None]  # msgMaxSize the agent announces (its own receive limit)
+SHARED_CREDS = [None]  # ONE credentials object used by the clients of several engines
+CTX_ENGINE = [b""]  # contextEngineID given by the caller (Client(engine_id=...)): NOT the security engine
 
 
 def one_world(R, level, label, param, auth_pw=rig.AUTH_PW, priv_pw=rig.PRIV_PW, engine_id=None, boots=1, tshift=0, ops=("get",), pad=0, cover=None, user=rig.USER, extra=0, small_ids=False, switch_from=None):
@@ -132,12 +134,16 @@ def _one_world(R, level, label, param, auth_pw, priv_pw, engine_id, boots, tshif
         akw["max_size"] = AGENT_MAX[0]
     if engine_id is not None:
         akw["engine_id"] = engine_id
+    ckw = {}
+    if CTX_ENGINE[0]:
+        akw["any_context"] = True
+        ckw["engine_id"] = CTX_ENGINE[0]
     agent_clock = env.Clock()
     agent_clock.now = 1_000_000.0
     extra_users = []
     if switch_from:
         extra_users.append(rig.agent_user_for(switch_from, user="previous", auth_pw=auth_pw, priv_pw=priv_pw))
-    w = World(level, db, agent_kwargs=akw, cred_kwargs={"auth_pw": auth_pw, "priv_pw": priv_pw, "user": user}, clock=agent_clock, extra_users=extra_users)
+    w = World(level, db, agent_kwargs=akw, cred_kwargs={"auth_pw": auth_pw, "priv_pw": priv_pw, "user": user}, clock=agent_clock, extra_users=extra_users, client_kwargs=ckw, creds=SHARED_CREDS[0])
     agent_clock.now += tshift  # engine time at discovery
     discovered = (boots, w.agent.engine_time())
     w.seam.budget = 80
@@ -158,7 +164,7 @@ def _one_world(R, level, label, param, auth_pw, priv_pw, engine_id, boots, tshif
         w.agent.requests.clear()
         R.mon["clients_switched_from_another_user"] += 1
     c = w.client
-    case = {"level": level, "label": label, "param": param, "auth_pw": "hex:" + bytes(auth_pw).hex(), "priv_pw": "hex:" + bytes(priv_pw).hex(), "engine_id": "hex:" + (engine_id or b"").hex(), "boots": boots, "tshift": tshift, "ops": list(ops), "pad": pad, "user": user, "extra": extra, "small_ids": small_ids, "switch_from": switch_from, "agent_max": AGENT_MAX[0]}
+    case = {"level": level, "label": label, "param": param, "auth_pw": "hex:" + bytes(auth_pw).hex(), "priv_pw": "hex:" + bytes(priv_pw).hex(), "engine_id": "hex:" + (engine_id or b"").hex(), "boots": boots, "tshift": tshift, "ops": list(ops), "pad": pad, "user": user, "extra": extra, "small_ids": small_ids, "switch_from": switch_from, "agent_max": AGENT_MAX[0], "ctx_engine": "hex:" + CTX_ENGINE[0].hex()}
     R.case(("c10", level, label, param, switch_from), True, sample=case if R.evaluations % 211 == 0 else None)
     for op in ops:
         try:
@@ -347,6 +353,35 @@ def run(R):
                     R.mon["responses_larger_than_the_agents_msgmaxsize"] += 1
                 finally:
                     AGENT_MAX[0] = None
+    # (g) a context engine id given by the caller that is NOT the agent's own (a proxied
+    # context, an id made with generate_engine_id_text()): the security engine - the one
+    # in the security parameters and the one the keys are localised to - stays the
+    # discovered one
+    for level in levels4:
+        for j, ctx in enumerate((bytes.fromhex("800000000468656c6c6f"), bytes.fromhex("8000b85c03aabbccddeeff"), b"\x80" + b"c" * 31)):
+            k += 1
+            if not R.mine(k):
+                continue
+            CTX_ENGINE[0] = ctx
+            try:
+                one_world(R, level, "ctxengine", j, ops=("get", "getnext", "walk", "set"))
+                R.mon["exchanges_with_a_foreign_context_engine"] += 1
+            finally:
+                CTX_ENGINE[0] = b""
+    # (h) ONE credentials object for the clients of three devices (engines), in turn:
+    # every device accepts its requests (keys localised to ITS engine id) and its
+    # responses are accepted
+    for level in levels4:
+        k += 1
+        if not R.mine(k):
+            continue
+        SHARED_CREDS[0] = rig.credentials_for(level, auth_pw=rig.AUTH_PW, priv_pw=rig.PRIV_PW, user=rig.USER)
+        try:
+            for turn, j in enumerate((0, 1, 0, 2, 1)):
+                one_world(R, level, "sharedcreds", turn, engine_id=bytes.fromhex("80001f8804") + b"device-%d" % j, ops=("get", "set"))
+                R.mon["exchanges_with_shared_credentials"] += 1
+        finally:
+            SHARED_CREDS[0] = None
     # (e) one client object used as another user first (other hash / other level)
     for level in levels4:
         for prev in rig.V3_LEVELS:
@@ -383,7 +418,16 @@ def replay(R, v):
     if c.get("label") == "reboot":
         reboot_scenario(R, c["level"])
         return
+    if c.get("label") == "sharedcreds":
+        SHARED_CREDS[0] = rig.credentials_for(c["level"], auth_pw=rig.AUTH_PW, priv_pw=rig.PRIV_PW, user=rig.USER)
+        try:
+            for turn, j in enumerate((0, 1, 0, 2, 1)):
+                one_world(R, c["level"], "sharedcreds", turn, engine_id=bytes.fromhex("80001f8804") + b"device-%d" % j, ops=("get", "set"))
+        finally:
+            SHARED_CREDS[0] = None
+        return
     AGENT_MAX[0] = c.get("agent_max")
+    CTX_ENGINE[0] = bytes.fromhex(c.get("ctx_engine", "hex:")[4:])
     one_world(
         R, c["level"], c["label"], c["param"],
         auth_pw=bytes.fromhex(c["auth_pw"][4:]), priv_pw=bytes.fromhex(c["priv_pw"][4:]),
